@@ -14,7 +14,19 @@ from . import celx
 from .celx import ct, celpy
 from .core import Ctx, read_dump, write_ndjson, trace_verdict, MachineryError, NCPU
 
-EXPRS = {"const": "42", "var": "x", "dotref": "a.b", "macro": "[1, 2].map(x, x + 1)", "has": "has(m.f)", "cond": 'x > 0 ? "p" : "n"'}
+EXPRS = {"const": "42", "var": "x", "dotref": "a.b", "macro": "[1, 2].map(x, x + 1)", "has": "has(m.f)", "cond": 'x > 0 ? "p" : "n"',
+         # programs built with / without application functions (a list: one overriding a built-in, one new name)
+         "sizeplain": 'size("h\u00e9llo")', "sizeov": 'size("h\u00e9llo")', "twiceplain": "twice(21)", "twiceov": "twice(21)"}
+WITH_FUNCTIONS = {"sizeov", "twiceov"}
+
+
+def size(text):
+    """application function overriding the built-in: the size in UTF-8 octets"""
+    return ct.IntType(len(text.encode("utf-8")))
+
+
+def twice(n):
+    return ct.IntType(2 * n)
 DECLS = ["none", "dotted", "xint", "pkg"]
 BINDINGS = ["empty", "x1", "xneg", "ab7", "ab8x2", "mf", "amap"]
 
@@ -49,7 +61,7 @@ def execute(call, st):
         return {"t": "ok"} if o.kind == "val" else celx.outcome_abs(o)
     if op == "Program":
         env = st["envs"][call[1] - 1]
-        o = celx.guarded(lambda: env.program(env.compile(EXPRS[call[2]])), "program")
+        o = celx.guarded(lambda: env.program(env.compile(EXPRS[call[2]]), functions=[size, twice] if call[2] in WITH_FUNCTIONS else None), "program")
         st["progs"].append(o.get("v"))
         return {"t": "ok"} if o.kind == "val" else ({"t": "exc", "cls": "CELEvalError", "phase": "program", "msg": ""} if o.kind == "err" else celx.outcome_abs(o))
     prog = st["progs"][call[1] - 1]
@@ -222,7 +234,15 @@ def run(ctx: Ctx) -> int:
         for i2 in range(len(BINDINGS)):
             seq += [BINDINGS[i1], BINDINGS[i2]]
     pairwise = [[["NewEnv", rr, d], ["Program", 1, e]] + [["Evaluate", 1, b] for b in seq] for rr in "IC" for d in DECLS for e in EXPRS]
-    longs = pairwise + longs
+    # 3c. every ordered pair of expressions as two programs in two environments (every pair of runner classes), the second built
+    #     after the first, both evaluated afterwards: what one program was given (functions, declarations) must not reach the other
+    cross = [[["NewEnv", r1, "none"], ["Program", 1, e1], ["NewEnv", r2, "none"], ["Program", 2, e2], ["Evaluate", 2, "x1"], ["Evaluate", 1, "x1"]]
+             for r1 in "IC" for r2 in "IC" for e1 in EXPRS for e2 in EXPRS if e1 != e2]
+    if q:
+        cross = [h for j, h in enumerate(cross) if j % 4 == 0 or (h[1][2] in WITH_FUNCTIONS) != (h[3][2] in WITH_FUNCTIONS)]
+    pairwise = [h if h[1][2] in ("const", "var", "dotref", "macro", "has", "cond") else h[:16] for h in pairwise]
+    longs = pairwise + cross + longs
+    ctx.cov["cross_program_histories"] = len(cross)
     ctx.cov["pairwise_binding_histories"] = len(pairwise)
     needed = set()
     for h in short + longs:
